@@ -483,3 +483,124 @@ def register_again(cls, ns):
 
 
 VICTIMS = {'CG': (CG, ''), 'CN': (CN, NS), 'CM': (CM, NS), 'CU': (CU, '')}
+
+
+# ---------------------------------------------------------------- fault injection (C15 / C16 / C17)
+
+class Boom(Exception):
+    """the injected exception (deliberately not a TypeError/ValueError/RuntimeError)"""
+
+
+class Ticker:
+    """counts invocations of user callbacks; raises (or calls a hook) at the k-th one"""
+
+    def __init__(self):
+        self.reset()
+
+    def reset(self):
+        self.count = 0
+        self.k = None
+        self.exc = None
+        self.kinds = []
+        self.hook = None
+
+    def arm(self, k=None, hook=None):
+        self.count = 0
+        self.k = k
+        self.exc = None
+        self.kinds = []
+        self.hook = hook
+
+    def tick(self, kind):
+        self.count += 1
+        self.kinds.append(kind)
+        if self.hook is not None:
+            self.hook(self.count, kind)
+        if self.k is not None and self.count == self.k:
+            self.exc = Boom(f'{kind}#{self.k}')
+            raise self.exc
+
+
+TICK = Ticker()
+NSF = 'fns'     # namespace of the ticking custom node
+
+
+class FM:
+    """custom metadata whose == ticks"""
+
+    __slots__ = ('v',)
+
+    def __init__(self, v):
+        self.v = v
+
+    def __eq__(self, other):
+        TICK.tick('meta_eq')
+        return isinstance(other, FM) and other.v == self.v
+
+    def __ne__(self, other):
+        TICK.tick('meta_eq')
+        return not (isinstance(other, FM) and other.v == self.v)
+
+    def __hash__(self):
+        return hash(('FM', self.v))
+
+    def __repr__(self):
+        return f'FM({self.v})'
+
+
+class FN:
+    """custom node (registered in NSF) whose flatten / unflatten functions tick"""
+
+    def __init__(self, ch, meta=None):
+        self.ch = list(ch)
+        self.meta = meta
+
+    def __getitem__(self, i):
+        return self.ch[i]
+
+    def __repr__(self):
+        return f'FN({self.ch!r}, {self.meta!r})'
+
+    def _v_fields(self):
+        return (('ch', list(self.ch)),), ('meta', self.meta)
+
+
+def fn_flatten(o):
+    TICK.tick('flatten')
+    return tuple(o.ch), o.meta
+
+
+def fn_unflatten(meta, ch):
+    TICK.tick('unflatten')
+    return FN(ch, meta)
+
+
+class FK:
+    """dict key whose __hash__ / __eq__ / __lt__ tick (total order by n among FK)"""
+
+    __slots__ = ('n',)
+
+    def __init__(self, n):
+        self.n = n
+
+    def __hash__(self):
+        TICK.tick('key_hash')
+        return hash(('FK', self.n))
+
+    def __eq__(self, other):
+        TICK.tick('key_eq')
+        return isinstance(other, FK) and other.n == self.n
+
+    def __lt__(self, other):
+        TICK.tick('key_lt')
+        if not isinstance(other, FK):
+            return NotImplemented
+        return self.n < other.n
+
+    def __repr__(self):
+        return f'FK({self.n})'
+
+
+optree.register_pytree_node(FN, fn_flatten, fn_unflatten, namespace=NSF)
+MODEL_REGISTRY[(NSF, FN)] = (fn_flatten, fn_unflatten, optree.AutoEntry)
+CUSTOM_CLASSES = CUSTOM_CLASSES + (FN,)
